@@ -10,6 +10,9 @@ mod sched;
 use common::Tier;
 
 fn main() {
+    // anyhow captures a backtrace per error when RUST_BACKTRACE is set; the store creates an error per
+    // incompatible pair, and backtrace capture takes a process-wide lock
+    std::env::set_var("RUST_LIB_BACKTRACE", "0");
     let args: Vec<String> = std::env::args().collect();
     if args.len() < 3 {
         eprintln!("usage: vcheck <ID> <quick|thorough> [--replay <file>]");
